@@ -48,6 +48,10 @@ from stdnum.exceptions import *
 from stdnum.util import clean, isdigits
 
 
+# the letters that can be used in the number (ASCII only)
+_letters = 'ABCDEFGHIJKLMNOPQRSTUVWXYZ'
+
+
 def compact(number):
     """Convert the number to the minimal representation.
 
@@ -66,7 +70,7 @@ def validate(number):
     number = compact(number)
     if len(number) != 8:
         raise InvalidLength()
-    if not number[0].isalpha() or not number[-1].isalpha():
+    if number[0] not in _letters or number[-1] not in _letters:
         raise InvalidFormat()
     if not isdigits(number[1:-1]):
         raise InvalidFormat()
